@@ -582,6 +582,15 @@ def write_evidence(pid, tier, seed, meta, plan, results, t_start, violations, no
             if r["verdict"] == "holds":
                 nontrivial += 1
         samples.append(s)
+    if extra and extra.get("results"):
+        for q in extra["results"]:
+            obligations += 1
+            if q.get("result") in ("unsat", "sat"):
+                discharged += 1
+            solver_s += q.get("seconds", 0)
+            samples.append(dict(smt_query=q.get("query"), result=q.get("result"), seconds=q.get("seconds")))
+            if not q.get("query", "").startswith("TWIN") and q.get("result") == "unsat":
+                nontrivial += 1
     ev = dict(
         property_id=pid, tier=tier, seed=seed, level="other",
         coverage=dict(
@@ -590,7 +599,7 @@ def write_evidence(pid, tier, seed, meta, plan, results, t_start, violations, no
                          "resulting formula decided by CaDiCaL; 'holds' means unsat for ALL values of the symbolic inputs within the bounds, "
                          "not sampling. " + p.get("explanation", "") + (" NOTE: " + note if note else "")),
             obligations=obligations, discharged=discharged,
-            evaluations=len(plan), distinct_nontrivial=nontrivial,
+            evaluations=len(plan) + (len(extra.get("results", [])) if extra else 0), distinct_nontrivial=nontrivial,
             rule="one evaluation = one harness (one SAT query family over all symbolic inputs); non-trivial = decided 'holds' with all cover witnesses satisfied",
             samples=samples,
             checker_cmd="cargo kani -p prometheus -Z stubbing --harness <h> --exact (CBMC 6.11, cadical)",
